@@ -266,4 +266,16 @@ theorem cyclic_repaired_reports :
     ruleB 0 none cycSkipped [[]] [] = .ok [(0, some 1)] ∧
     ruleB 1 none cycSkipped [[]] [] = .ok [] := by decide
 
+/-- ACYCLIC chains through fragments are measured exactly, whatever their depth (general statement:
+    `flags_iff_final`, which has no bound on the depth; the implementation's interpreter stack is the named
+    divergence, removed for the depth by C19-Q3.patch). A small instance: three fragments of two levels each. -/
+def chainDoc : Doc :=
+  ⟨[anon [.spread "F0" {}]],
+   [⟨"F0", [fld "a" [fld "a" [.spread "F1" {}]]]⟩, ⟨"F1", [fld "a" [fld "a" [.spread "F2" {}]]]⟩,
+    ⟨"F2", [fld "a" [fld "a" [fld "c"]]]⟩]⟩
+
+theorem acyclic_chain_exact :
+    ruleB 5 none chainDoc [[]] [] = .ok [(0, some 6)] ∧ ruleB 6 none chainDoc [[]] [] = .ok [] ∧
+    ruleB 100000 none chainDoc [[]] [] = .ok [] := by decide
+
 end PyGql.Props.C19
